@@ -24,6 +24,7 @@ EXPLANATION = (
     "value) guarded by a test on the action / mask, or the action is replaced by the no-op constant when masked out "
     "(Maze: select(mask[a], a, 4) with identity branch 4; RobotWarehouse: cond(mask[a], a, 0) with NOOP = 0; Sokoban: "
     "NOOP sentinel). (R5) reward and done function classes store each constructor parameter under its own name (no crossing such as invalid_action_reward <- revealed_mine_reward). Not decided: exact penalty values; that nothing else changes beyond the named fields.")
+EXPLANATION += ' (R6) Connector / SlidingTilePuzzle: every clause with which the mask forbids an action is also a clause of the guard step applies (borrowed from C04.R3b, one direction only).'
 
 TERMINATE_ON_INVALID = ["TSP", "CVRP", "Knapsack", "BinPack", "JobShop", "GraphColoring", "Sudoku", "Minesweeper", "Snake", "Tetris", "Cleaner"]
 UNTOUCHED = {"TSP": None, "CVRP": None, "Knapsack": None,
@@ -305,7 +306,9 @@ def check(tier: str) -> Result:
     n_sites += 4
     from . import wiring
     n_w = wiring.add_obligations(res, tree, "C05.R5", lambda ci: ci.module.name.endswith((".reward", ".done")) and ci.module.name.startswith("jumanji.environments."))
-    res.analysed = {"terminate_on_invalid": TERMINATE_ON_INVALID, "untouched_state": list(UNTOUCHED) + ["Cleaner"],
+    from .common import borrow
+    n_b = borrow(res, "c04", {"C04.R3b": "C05.R6"}, envs=["Connector", "SlidingTilePuzzle"], only_if=lambda ob: "mask forbids" in ob.detail)
+    res.analysed = {"mask_forbidden_action_ignored": n_b, "terminate_on_invalid": TERMINATE_ON_INVALID, "untouched_state": list(UNTOUCHED) + ["Cleaner"],
                     "ignore_invalid": list(IGNORE) + ["Game2048", "RobotWarehouse"], "sites": n_sites}
     res.assumptions = ["lax.cond / select / where pick their else-alternative when the guard is false",
                        "environment lists come from the property text (documented behaviour per environment)"]
